@@ -76,17 +76,21 @@ step_safety = Unit(
     'XdlParser_step_any_byte', 'C06',
     cuts=parser_cuts(),
     text=PARSER_C + r'''
-int g_cm0, g_cd0;   /* entry values: number of comment markers on top of the context stack, depth */
+int g_cm0, g_cd0; State g_state0;   /* entry values: number of comment markers on top of the context stack, depth, state */
 #define CMT_COUNT(x) (IS_CMT(x) ? ((x) == ENDCOMMENT ? 2 : 1) : 0)
 void vf_step(XdlParser* self, char c)
 __CPROVER_requires(__CPROVER_is_fresh(self, sizeof(XdlParser)) && c != 0 && INV(self))
-__CPROVER_requires(g_pushback == 0 && g_lists_pushed == 0 && g_lists_popped == 0 && g_buflen < 1000000 && g_cm0 == CMT_COUNT(g_c0) && g_cd0 == g_cd && g_cd <= 1000000 && 0 <= g_values && g_values <= 1000000 && 0 <= g_props_pushed && g_props_pushed <= 1000000)
+__CPROVER_requires(g_state0 == self->_state && g_pushback == 0 && g_lists_pushed == 0 && g_lists_popped == 0 && g_buflen < 1000000 && g_cm0 == CMT_COUNT(g_c0) && g_cd0 == g_cd && g_cd <= 1000000 && 0 <= g_values && g_values <= 1000000 && 0 <= g_props_pushed && g_props_pushed <= 1000000)
 /* for ANY byte in ANY reachable parser configuration: no stack underflow, no out-of-range index (checked inside), the invariant is re-established,
    a character is pushed back at most once and only into a state that consumes it, container opens/closes are paired with value-list pushes/pops */
 __CPROVER_ensures(INV(self))
 __CPROVER_ensures(g_pushback <= 1)
 __CPROVER_ensures(g_pushback == 1 ==> (self->_state == WAIT_VALUE || self->_state == WAIT_SEP || self->_state == WAIT_EQUAL || self->_state == WAIT_OBJ))
 __CPROVER_ensures((g_cd - CMT_COUNT(g_c0)) - (g_cd0 - g_cm0) == g_lists_pushed - g_lists_popped)
+/* ingredients of prefix rejection: the number of open containers goes down only on a closing bracket, by one, and never on a character that is pushed back
+   (so each input character closes at most one container); a string is left only at its closing quote (or into an escape / the error state) */
+__CPROVER_ensures((g_cd - CMT_COUNT(g_c0)) < (g_cd0 - g_cm0) ==> ((c == ']' || c == '}') && (g_cd - CMT_COUNT(g_c0)) == (g_cd0 - g_cm0) - 1 && g_pushback == 0))
+__CPROVER_ensures((g_state0 == STRING && c != '"') ==> (self->_state == STRING || self->_state == ESCAPE || self->_state == ERR))
 __CPROVER_assigns(*self, g_c0, g_c1, g_c2, g_cd, g_buf, g_buflen, g_lists_pushed, g_lists_popped, g_props_pushed, g_values, g_pushback, g_int_digits, g_string_done, g_key_done)
 { XdlParser_step(self, c); }
 void vf_harness(void) { XdlParser* p; char c; vf_step(p, c); VF_CANARY(); }
@@ -142,3 +146,31 @@ void vf_harness(void) {
     functions=['XdlParser::parse (ESCAPE state)'],
 )
 UNITS += [json_escapes]
+
+# value(): a value is handed out only from the initial configuration (no container or string open, no error).
+# _lists is a counter in the ghost model: its length is the number of open containers + 1 (step postcondition 4), so _lists[0] needs length >= 1.
+value_unit = Unit(
+    'XdlParser_value', 'C06',
+    cuts=parser_cuts() + [Cut('value', X, r'^Var XdlParser::value\(\) const\s*$', members=MEMBERS,
+                              rules=STEP_RULES + [(r'Var v;', 'g_valid = 0;', 1), (r'return v;', 'return;', None),
+                                                  (r'const Var& l = _lists\[0\];', '__CPROVER_assert(g_lists_len >= 1, "Array::operator[] index below length (_lists[0])"); int l_length = g_root_values;', 1),
+                                                  (r'l\.length\(\)', 'l_length', None), (r'v = l\[l_length\s*-\s*1\];', '{ __CPROVER_assert(l_length - 1 >= 0, "Array::operator[] index (last root value)"); g_valid = 1; }', 1)])],
+    text=PARSER_C + r'''
+int g_valid, g_lists_len, g_root_values;
+void XdlParser_value(XdlParser* self)
+__CPROVER_requires(__CPROVER_is_fresh(self, sizeof(XdlParser)) && INV(self) && g_lists_len == g_cd - (IS_CMT(g_c0) ? (g_c0 == ENDCOMMENT ? 2 : 1) : 0) && 0 <= g_root_values && g_root_values <= 1000000)
+/* a value comes out only when nothing is open: no container (the context stack holds ROOT alone), no string / token in progress, no comment, no error */
+__CPROVER_ensures(g_valid ==> (g_cd == 1 && g_c0 == ROOT && self->_state == WAIT_VALUE && !self->_inComment && g_root_values >= 1))
+__CPROVER_ensures((g_cd == 1 && self->_state == WAIT_VALUE && g_root_values >= 1) ==> g_valid)
+__CPROVER_assigns(g_valid)
+@@value@@
+void vf_harness(void) { XdlParser* p; XdlParser_value(p); VF_CANARY(); }
+''',
+    entry='XdlParser_value', unwind=10,
+    desc='XdlParser::value() in ANY configuration satisfying the invariant: a valid value is returned exactly when the context stack holds ROOT alone, the state is WAIT_VALUE and a root value exists; '
+         'with the step postconditions (containers close only on a closing bracket, one per character; a string ends only at its quote) a text cut before the final closing character of a top-level array, object or string is rejected',
+    functions=['XdlParser::value'],
+    trusted=['_lists modelled by its length (= open containers + 1 by the step postcondition); the root list by its number of values'],
+    planted=[('value', r'CTX_TOP\(\) == ROOT && ', '')],
+)
+UNITS += [value_unit]
